@@ -18,7 +18,8 @@ register('C03',
          'FastProduct are executed on symbolic leaves for every n and the recorded tree and T are validated by a TLC trace '
          'specification against the model; TLC-enumerated bag scenarios (duplicates, nested moduli, several partners, extra '
          'product, empty batch, all orderings) are replayed through BatchGCD / CheckGCD / CheckGCDN1 with concrete primes and '
-         'TLC recomputes the expected gcd bag for every record.',
+         'TLC recomputes the expected gcd bag for every record.'
+         ' Rounds 3-4: N-1 bounds that are not powers of two (gcd of a key of the batch, one less, one more), decided by TLC from the bags.',
          'Trusted: TLC, the .proto shim, the 40-line free-semiring Poly class, trial division of results by the harness\'s own '
          'primes. N-1 variant decided for bounds 2^(63k) via prime counts.',
          'TLA+ spec (BatchGcd.tla) checked with TLC + TLC-generated scenarios replayed into the code + TLC trace validation',
@@ -30,7 +31,8 @@ register('C13',
          'exact integer arithmetic) is model-checked with TLC (failed-iff, undecided-iff, return-iff-failed, finished structures '
          'never rerun, TestBitString runs each once); TLC enumerates every history of a single structure and simulates '
          'behaviours of the entry points; each is replayed through the real TestStructure/TestSource/TestBitString with scripted '
-         'tests and every Run() and return is validated step by step by the TLC trace specification TSTrace.tla.',
+         'tests and every Run() and return is validated step by step by the TLC trace specification TSTrace.tla.'
+         ' Rounds 3-4: population statement (GenTrace.Within), fail level close to the repeat level (MC_TS_close / GEN_TS_close / TSTrace_close), good generators at 2^23 and 2^24 bits in the thorough tier.',
          'Trusted: TLC, mpmath series for the FailAt constants, the wrapper that records TestStructure.Run after it returns. '
          'Float ties at Sum = k*R with unequal exponents admit both outcomes. The generator clauses (good generators pass, '
          'weak ones fail) are validated by GenTrace.tla on real generator output; the population statement (fraction of p-values at or below '
@@ -46,7 +48,8 @@ register('C14',
          'three implementations (C++ compiled from /repo with the carry-less-multiplication path, C++ portable path, Python) are '
          'run on every sequence of length 0..12 (0..16 thorough), on class sequences at every 64-bit boundary up to 1100 bits and '
          'TLC recomputes the linear complexity of every recorded sequence with the verified machine; LfsrCount/LfsrLogProbability '
-         'on the full grid n <= 64 are recomputed by TLC.',
+         'on the full grid n <= 64 are recomputed by TLC.'
+         ' Round 3: LfsrLogProbability for every m at n = 2956 and 4096 and the median band up to n = 65536.',
          'Trusted: TLC, ctypes + 3-line extern "C" wrapper, g++. The CLMUL variant is built with -mpclmul -D__CLMUL__ because gcc '
          'does not define the macro the source tests for. Sequences longer than 1100 bits: implementations compared with each other only.',
          'TLA+ spec (BerlekampMassey.tla) model-checked against the brute-force definition with TLC + exhaustive/boundary replay into the three implementations + TLC trace validation',
@@ -59,7 +62,8 @@ register('C15',
          'against independent second formulations on every string of length <= 10. The real functions are replayed on every '
          'string of length <= 8 (quick; <= 12 thorough) with every m, sampled strings to 16 bits, a TLC-sized grid on both sides '
          'of the 50*2^m fast-path threshold at every residue mod 8, block sizes to 70, long strings, and rank on shapes around '
-         '32/50/256 rows; TLC re-evaluates the definition on every recorded input (BitPrimsTrace.tla).',
+         '32/50/256 rows; TLC re-evaluates the definition on every recorded input (BitPrimsTrace.tla).'
+         ' Round 4: every block size up to 72 in the quick tier.',
          'Trusted: TLC, the harness\'s int<->bit-list conversion. Inputs outside the documented domains (m <= 0 for counts, seq longer than length) are not driven.',
          'TLA+ definitions (BitPrims.tla) model-checked for mutual consistency with TLC + exhaustive/threshold replay + TLC trace validation',
          'DESIGN.md 5/C15')
@@ -105,7 +109,8 @@ register('C10',
          'every x below the bound; TLC validates each result from the definitional group law (sound: dl*G = P, complete: every '
          'x < bound found; difference search: relation true, both partners flagged, identical keys silent). Named curves: '
          'boundary x values under call histories, small differences with history lists, structured private keys through '
-         'ExtendedBatchDL, decided by TLC from the known keys (T2).',
+         'ExtendedBatchDL, decided by TLC from the known keys (T2).'
+         ' Rounds 3-4: top byte shift on a Brainpool curve, check-level scenarios with close / structured keys around keys of other curves.',
          'Trusted: TLC, refec.py, the relation-string regex. ExtendedBatchDL needs a 2^32 search, so it is exercised on named curves only.',
          'TLA+ spec (Bsgs.tla) model-checked over call histories with TLC + TLC-simulated histories replayed on small real curves + TLC trace validation',
          'DESIGN.md 5/C10')
@@ -118,7 +123,7 @@ register('C09',
          'against the 7-bit orders (shorter, equal, longer, unaligned), and protobuf signatures with leading zero bytes; TLC '
          'recomputes r, s (certifying the reference signer), the truncated hash and the relation (EcTrace.tla). Named curves: '
          'hash lengths 0..66 bytes on every curve, and Int2Bytes/Bytes2Int/Hex2Bytes on 0..65535 and up to 4096 bits (T2).'
-         " Rounds 2-3: Hex2Bytes compared on exact bytes; the modulus of the relation must be the order of the table's generator (reference arithmetic).",
+         " Rounds 2-4: Hex2Bytes compared on exact bytes; the modulus of the relation must be the order of the table's generator (reference arithmetic).",
          'Trusted: TLC; for named curves the reference signer (certified by TLC on the small curves), bits2int_ref and int.from_bytes.',
          'TLA+ spec (EcGroup.tla: Sign/Bits2Int/HnpRelation) model-checked with TLC + exhaustive small-curve replay + TLC trace validation',
          'DESIGN.md 5/C09')
@@ -133,7 +138,7 @@ register('C20',
          'specified from its recurrence and recomputed by TLC for state sizes 4..14 bits. Every registry generator is replayed '
          'for n in 1..130 and around every multiple of 8/32/64 up to 2048 (all n thorough) with two seeds and unseeded; purity '
          'under interleaved calls for every seedable generator.'
-         ' Rounds 2-3: seeds whose low 32 / 64 bits are zero or beyond the state size, call histories with one seed on one generator object against a fresh process, Java seeds beyond 48 bits and negative (JDK fixture regenerated).',
+         ' Rounds 2-4: seeds whose low 32 / 64 bits are zero or beyond the state size, call histories with one seed on one generator object against a fresh process, Java seeds beyond 48 bits and negative (JDK fixture regenerated).',
          'Trusted: TLC, the JDK, hashlib digests for purity, Python-int reference recurrence for registry-size truncated LCGs. '
          'urandom and subsetsum* cannot be seeded by construction (range clause only). D5 is a known finding (repair would break '
          'the pinned rng_test.testTruncLcg).',
@@ -148,7 +153,8 @@ register('C16',
          'one-entry-per-check, no duplicates, weak-iff-positive, version stamped, return-iff-weak and the action properties '
          'Monotone / UntouchedOutsideBatch. TLC-simulated call histories over the real check names (plus directed ones: re-runs, '
          'factor-set union, equal coordinates under two curve labels) are replayed on real RSA / EC / ECDSA protobufs and every '
-         'call is validated as a transition (before -> after projected TestInfo) by ChecksTrace.tla, naming the violated clause.',
+         'call is validated as a transition (before -> after projected TestInfo) by ChecksTrace.tla, naming the violated clause.'
+         ' Rounds 3-4: suspicion-first severity, U2F issuer before a later curve, issuer key failing two EC checks, entry points with log_level 1 and 2, the three entry points in one process.',
          'Trusted: TLC, pv.checks.project (own parser of attached_info), pv.gen ground truth of every artifact, the check table in '
          'TestInfo.tla (from README / class docstrings). Quick tier builds the small-difference check with max_diff = 2^12.',
          'TLA+ spec (TestInfo.tla, Checks.tla) model-checked over call histories with TLC + TLC-simulated histories replayed on real protobufs + TLC transition validation',
@@ -160,7 +166,7 @@ register('C17',
          'checks give the same entry and evidence as alone; joint checks: flagged fresh => flagged later, permutation-equivariant, '
          'healthy neighbours neutral. The cache that makes this non-trivial (per-curve table shared by three searches) is '
          'model-checked in Bsgs.tla for every reachable cache state; the bookkeeping side in Checks.tla.'
-         ' Rounds 2-3: healthy behind weak / other curve, duplicates next to a close key in three orders, a low-Hamming-weight suspicion first, private values on the last baby-step table entry for the batch size at hand; forked settings bounded by a semaphore.',
+         ' Rounds 2-4: healthy behind weak / other curve, duplicates next to a close key in three orders, a low-Hamming-weight suspicion first, private values on the last baby-step table entry for the batch size at hand; forked settings bounded by a semaphore.',
          'Trusted: TLC, pv.checks.project, fork semantics for "fresh process". The oracle is the code\'s own verdict in another setting. '
          'Permutation/neighbour clauses for joint checks apply to decided (must/mustnot) artifacts only.',
          'TLA+ specs (Checks.tla, Bsgs.tla) model-checked with TLC + each simulated call replayed in five settings + TLC trace validation (SoloTrace.tla)',
@@ -172,7 +178,7 @@ register('C18',
          'duplicates, empty and 64-byte hashes, r, s in {1, n-1}, invalid and unsupported issuer keys, empty batches) are replayed '
          'through every individual check and every entry point; ChecksTrace.tla rejects any exception or non-bool return and also '
          'checks the bookkeeping and evidence clauses on these inputs.'
-         ' Rounds 2-3: every library call runs under a deadline (non-termination = clause Total); moduli with Keypair-table prefixes at odd and even sizes; honest issuers with exactly 24 / 48 / 120 signatures; negative logarithms; the three entry points in one process in three orders.',
+         ' Rounds 2-4: every library call runs under a deadline (non-termination = clause Total); moduli with Keypair-table prefixes at odd and even sizes; honest issuers with exactly 24 / 48 / 120 signatures; negative logarithms; the three entry points in one process in three orders.',
          'Trusted: TLC, record_call (exception class, type of the return value).',
          'TLA+ spec (Checks.tla: Total) model-checked with TLC + degenerate-batch histories generated by TLC replayed into every check + TLC trace validation',
          'DESIGN.md 5/C18')
@@ -186,7 +192,7 @@ register('C04',
          'builds a modulus per cell (exact Fermat step count, exact common bits), computes its attributes from p and q, runs the '
          'family\'s checks on protobufs, and ChecksTrace.tla applies the criterion: must flag / must not flag / both primes '
          'recorded, plus all bookkeeping and evidence clauses.'
-         ' Rounds 2-3: Fermat.tla transcribes FermatFactor (TLC: every n <= 2500, a semiprime is factored exactly when (p+q)/2 - ceil(sqrt n) < max_steps) and FermatTrace validates the real function on every n < 3000 x five step bounds; splits with more than half of the low bits equal; upper differences on moduli of odd length; GMP Mersenne-Twister outputs regenerated with gmpy2 as table-independent ground truth.',
+         ' Rounds 2-4: Fermat.tla transcribes FermatFactor (TLC: every n <= 2500, a semiprime is factored exactly when (p+q)/2 - ceil(sqrt n) < max_steps) and FermatTrace validates the real function on every n < 3000 x five step bounds; splits with more than half of the low bits equal; upper differences on moduli of odd length; GMP Mersenne-Twister outputs regenerated with gmpy2 as table-independent ground truth.',
          'Trusted: TLC, pv.weak abstraction map, gmpy2 primality. Completeness of the Lehman/continued-fraction step is the claim '
          'itself: catalogue instances (seed derived from the cell). Quick tier stops at 1024-bit primes and 7 listed outputs per size.',
          'TLA+ criteria (FactorCriteria.tla) + TLC-generated boundary grid (FamilyGrid.tla) replayed on constructed moduli + TLC trace validation (ChecksTrace.tla)',
@@ -198,7 +204,7 @@ register('C05',
          'FamilyGrid.tla generates the cells with TLC (sizes 1024/2048, thorough 3072/4096); a modulus is built per cell, its actual '
          'attributes are computed from p and q, the family\'s check runs on protobufs and ChecksTrace.tla applies the criterion '
          '(must flag, both primes recorded where the statement says factored, severity rule of CheckLowHammingWeight).'
-         ' Rounds 2-3: cells covering every factor of the default Pollard product (1861 blocks of primes, 12 blocks of prime powers; quick: the boundary blocks), shared factors with prime powers beyond the product, slow starters of the low-Hamming-weight search (four catalogue instances are known findings).',
+         ' Rounds 2-4: cells covering every factor of the default Pollard product (1861 blocks of primes, 12 blocks of prime powers; quick: the boundary blocks), shared factors with prime powers beyond the product, slow starters of the low-Hamming-weight search (four catalogue instances are known findings).',
          'Trusted: TLC, pv.weak abstraction map. Why the 3-dimensional lattice / best-first search succeeds is outside the model: the '
          'specification states that it must on the documented region; catalogue instances.',
          'TLA+ criteria (FactorCriteria.tla) + TLC-generated family grid replayed on constructed moduli + TLC trace validation (ChecksTrace.tla)',
@@ -214,7 +220,7 @@ register('C01',
          'factoring helper. Each cell is replayed on real protobufs / function calls; ChecksTrace.tla checks on every record: each '
          'recorded value divides n (or n-1), one is proper unless n divides another modulus of the batch, evidence implies weak, '
          'helpers return only divisors whose product is n.'
-         ' Rounds 2-3: histories of one CheckKeypairDenylist object, re-check histories of the aggregate checks, even moduli whose successors share a large factor.',
+         ' Rounds 2-4: histories of one CheckKeypairDenylist object, re-check histories of the aggregate checks, even moduli whose successors share a large factor.',
          'Trusted: TLC, own parser of attached_info + one division per factor (pv.checks.project). Known finding: CheckGCD records '
          '{n, 1} when a modulus shares each prime with a different partner.',
          'TLA+ invariant (Checks.tla/ChecksTrace.tla FactorsSound) + TLC-generated class x check x parameter grid replayed + TLC trace validation',
@@ -227,7 +233,7 @@ register('C02',
          'to the negated issuer point, two curves and several issuers in one batch, structured and close private keys) go through '
          'every nonce / LCG / U2F / EC check; ChecksTrace.tla requires every recorded DISCRETE_LOG(_DIFF) to be true and every '
          'positive nonce verdict to come with a verifiable private key.'
-         ' Rounds 2-3: 400 honest issuers next to three weak ones (hundreds of guesses in one call), a U2F-weak issuer in front of healthy ones.',
+         ' Rounds 2-4: 400 honest issuers next to three weak ones (hundreds of guesses in one call), a U2F-weak issuer in front of healthy ones.',
          'Trusted: TLC, refec.py reference multiplication, regex of the relation string. Keys that are not valid points are outside the claim.',
          'TLA+ group-law spec (EcGroup.tla) as oracle on small curves + verdict invariants (ChecksTrace.tla DlogSound) on TLC-generated batches + TLC trace validation',
          'DESIGN.md 5/C02')
@@ -238,7 +244,7 @@ register('C07',
          'key, off-curve, biased nonces, invalid issuer), are replayed through the all-checks entry points; ChecksTrace.tla requires '
          'every entry of a healthy artifact to be negative, the entry point to return False on all-healthy batches, and weak '
          'neighbours to keep their own verdicts.'
-         ' Rounds 2-3: healthy artifacts behind weak ones and behind another curve (n-1 pairs, shared primes, close EC keys, U2F and MSB issuers), padded field encodings, near-ROCA healthy semiprimes.',
+         ' Rounds 2-4: healthy artifacts behind weak ones and behind another curve (n-1 pairs, shared primes, close EC keys, U2F and MSB issuers), padded field encodings, near-ROCA healthy semiprimes.',
          'Trusted: TLC, pv.gen (healthy = independent uniform primes / keys / nonces). Population size is what bounds the '
          'false-positive rate that can be seen: quick ~40 healthy artifacts, thorough ~2000.',
          'TLA+ invariant (Checks.tla HealthyNeverAccused) + TLC-simulated healthy/mixed batches through the entry points + TLC trace validation',
@@ -255,7 +261,7 @@ register('C06',
          'and e, ROCA-structured moduli, moduli missing the ROCA / variant condition at exactly one prime (incl. residue 0), CRT-'
          'built variant moduli, custom Storage denylists (same hash under another key type), covered / uncovered Keypair seeds, '
          'every named curve with off-curve / 0 / p / x+p / 2^521 coordinates, unknown and binary-field identifiers.'
-         ' Rounds 2-3: the 768 covered Keypair moduli come from a committed fixture (not from the generator under test) and all of them run in both tiers; histories of one CheckKeypairDenylist object; healthy semiprimes on the boundary of the ROCA fingerprint.',
+         ' Rounds 2-4: the 768 covered Keypair moduli come from a committed fixture (not from the generator under test) and all of them run in both tiers; histories of one CheckKeypairDenylist object; healthy semiprimes on the boundary of the ROCA fingerprint.',
          'Trusted: TLC, residues and bit lengths computed by the harness, hashlib fingerprint, reference on-curve test, the repository\'s '
          'keypair_generator as the definition of the vulnerable generator. Moduli divisible by one of the 48 primes are "may" for the variant.',
          'TLA+ exact criteria (FactorCriteria.tla, Roca.tla, EcGroup.tla Valid) evaluated by TLC on boundary replays + small-curve exhaustive validity',
@@ -272,7 +278,7 @@ register('C08',
          'signer (LCG nonces from the system libgmp itself), run through the real check with the solver entry wrapped, and '
          'HnpTrace.tla decides: every signature of a must-group flagged with the correct key, other issuers keep their verdict, '
          'no flag without a correct key, multiset of solver-call sizes equals the specification\'s.'
-         ' Rounds 2-3: SigPipeline.tla (bookkeeping of BiasedBaseCheck over an interleaved batch; TLC checks ExactlyTheWeak on all 5040 interleavings of four issuers on two curves, refutes the index confusion, and prints every layout with its verdicts for replay); biases 128 / 176 (few signatures); hash lengths other than the order length.',
+         ' Rounds 2-4: SigPipeline.tla (bookkeeping of BiasedBaseCheck over an interleaved batch; TLC checks ExactlyTheWeak on all 5040 interleavings of four issuers on two curves, refutes the index confusion, and prints every layout with its verdicts for replay); biases 128 / 176 (few signatures); hash lengths other than the order length.',
          'Trusted: TLC, reference signer, reference multiplication of the recorded key, libgmp. Success of lattice reduction on the '
          'margin is the claim itself (catalogue instances); misses of the multiplied form at exactly 2x the curve size are known findings.',
          'TLA+ spec (HnpWindows.tla) model-checked with TLC + TLC-generated layout grid signed and replayed + TLC trace validation (HnpTrace.tla)',
